@@ -255,14 +255,27 @@ def normalise_obs(o):
     return o
 
 
-def normalise_to_dict(d):
+def _fill_defenses(entry, L):
+    """Every defense of the asset's type with its effective value: a serialisation
+    may list all defenses or only the non-default ones, both say the same."""
+    given = {n: float(x) for n, x in (entry.get('defenses') or {}).items()}
+    if L is not None and entry.get('type') in L.types:
+        full = dict(L.defenses(entry['type']))
+        full.update(given)
+        given = full
+    entry = dict(entry)
+    entry['defenses'] = given
+    return entry
+
+
+def normalise_to_dict(d, L=None):
     """Model._to_dict() -> comparable view (ids as ints, lists sorted)."""
     assets = {}
     for k, v in d['assets'].items():
         v = _plain(v)
-        if 'defenses' in v:
-            v['defenses'] = {n: float(x) for n, x in v['defenses'].items()}
-        assets[int(k)] = v
+        if not isinstance(v, dict):
+            v = {'type': v, 'name': f'{v}:{k}'}
+        assets[int(k)] = _fill_defenses(v, L)
     assocs = []
     for e in d['associations']:
         e = _plain(e)
@@ -283,8 +296,9 @@ def normalise_to_dict(d):
             'associations': sorted(assocs, key=canon), 'attackers': attackers}
 
 
-def normalise_ref_to_dict(d):
+def normalise_ref_to_dict(d, L=None):
     d = copy.deepcopy(d)
+    d['assets'] = {k: _fill_defenses(v, L) for k, v in d['assets'].items()}
     d['associations'] = sorted(d['associations'], key=canon)
     for v in d['attackers'].values():
         for e in v['entry_points'].values():
@@ -514,10 +528,10 @@ class ModelWorld(BaseWorld):
         td = call(model._to_dict)
         if td.raised:
             self.fail(f'{P}.to_dict', f'after {where}: _to_dict() raised {td.exc!r}')
-        gd = call(normalise_to_dict, td.value)
+        gd = call(normalise_to_dict, td.value, self.L)
         if gd.raised:
             self.fail(f'{P}.to_dict', f'after {where}: _to_dict() has an unexpected shape: {gd.exc!r}')
-        ed = normalise_ref_to_dict(ref.to_dict_view())
+        ed = normalise_ref_to_dict(ref.to_dict_view(), self.L)
         if gd.value != ed:
             if 'C05' not in self.armed:
                 # the model itself equals the reference (checked above), only its
@@ -1285,7 +1299,9 @@ class ModelWorld(BaseWorld):
             self.fail('C05.attackers', f'{where}: attacker id {at.id!r} is not an int')
         if at.id in {ref.attackers[k].id for k in ref.attacker_order}:
             self.fail('C05.unique', f'{where}: attacker id {at.id} used twice')
-        exp_name = name if name else f'Attacker:{at.id}'
+        exp_name = name if name else at.name     # the default name is not promised: adopted
+        if not isinstance(exp_name, str) or not exp_name:
+            self.fail('C05.attackers', f'{where}: attacker has no name ({at.name!r})')
         rk = RefAttacker(h, exp_name)
         ref.add_attacker(rk, at.id, exp_name)
         self.state_changes += 1
@@ -1380,7 +1396,7 @@ class ModelWorld(BaseWorld):
 
     def _file_view(self, parsed):
         """Parsed model file -> the normalised _to_dict view."""
-        return normalise_to_dict(parsed)
+        return normalise_to_dict(parsed, self.L)
 
     def _new_factory(self, how):
         if how == 'lang':
@@ -1488,10 +1504,10 @@ class ModelWorld(BaseWorld):
             self.fail('C07.file', f'the file written by save_to_file(*{ext}) does not parse: {p.exc!r}')
         fv = call(self._file_view, p.value)
         self.count('oracle:C07.file')
-        if fv.raised or fv.value != normalise_ref_to_dict(ref.to_dict_view()):
+        if fv.raised or fv.value != normalise_ref_to_dict(ref.to_dict_view(), self.L):
             self.fail('C07.file', f'content of the saved {ext} file differs from the model\n'
                       + (repr(fv.exc) if fv.raised else
-                         _obs_diff(normalise_ref_to_dict(ref.to_dict_view()), fv.value)))
+                         _obs_diff(normalise_ref_to_dict(ref.to_dict_view(), self.L), fv.value)))
         # ---- drop everything, load
         if how == 'process':
             self._process_restart(mi, path, op.get('hashseed', 1), where)
@@ -1637,13 +1653,13 @@ class ModelWorld(BaseWorld):
 
     # -- legacy formats (C18)
     @staticmethod
-    def _c18_view(todict, with_names=True):
+    def _c18_view(todict, L=None):
         """Model._to_dict() -> what C18 compares."""
         assets = {}
         for k, v in todict['assets'].items():
             v = _plain(v)
             assets[int(k)] = {'name': v['name'], 'type': v['type'],
-                              'defenses': {n: float(x) for n, x in v.get('defenses', {}).items()}}
+                              'defenses': _fill_defenses(v, L)['defenses']}
         links = set()
         for e in todict['associations']:
             for cls, fields in e.items():
@@ -1666,8 +1682,7 @@ class ModelWorld(BaseWorld):
         for h in ref.order:
             a = ref.assets[h]
             defaults = self.L.defenses(a.type)
-            assets[a.id] = {'name': a.name, 'type': a.type,
-                            'defenses': {k: v for k, v in a.defenses.items() if v != defaults[k]}}
+            assets[a.id] = {'name': a.name, 'type': a.type, 'defenses': dict(a.defenses)}
         links = set()
         for cls, l, r in legacy.pairwise_links(ref):
             info = self.L.assoc_by_cls[cls]
@@ -1772,7 +1787,7 @@ class ModelWorld(BaseWorld):
         td = call(new_model._to_dict)
         if td.raised:
             self.fail('C18.equal', f'{where}: _to_dict() of the loaded model raised {td.exc!r}')
-        got = self._c18_view(td.value)
+        got = self._c18_view(td.value, self.L)
         if got != exp:
             self.fail('C18.equal', f'{where}: loaded model differs from the equivalent native model\n'
                       + _obs_diff(exp, got))
@@ -1788,10 +1803,12 @@ class ModelWorld(BaseWorld):
             json.dump(doc, f)
         n = call(self.Model.load_from_file, npath, self.factory)
         if not n.raised:
-            nv = self._c18_view(n.value._to_dict())
+            nv = self._c18_view(n.value._to_dict(), self.L)
             if nv != got:
                 self.fail('C18.equal', f'{where}: differs from the native loader on the equivalent '
                                        f'native file\n' + _obs_diff(nv, got))
+        if op['kind'] == 'scad':
+            ref.name = new_model.name       # how the loader names the model is not promised
         self._rebind(mi, new_model)
         self.restarts += 1
         self.key_events += self.prop == 'C18'
@@ -1805,10 +1822,16 @@ class ModelWorld(BaseWorld):
             self.neo_server = fakeneo.Server()
         return self.neo_server
 
-    @staticmethod
-    def _db_canon(d):
+    MODEL_NODE_KEYS = ('asset_id', 'name', 'type')
+    GRAPH_NODE_KEYS = ('name', 'full_name', 'type', 'ttc', 'is_necessary', 'is_viable',
+                       'compromised_by', 'defense_status')
+
+    @classmethod
+    def _db_canon(cls, d):
         def cn(n):
-            return [n['labels'], sorted((k, str(v)) for k, v in n['props'].items())]
+            # the properties the property names; further ones may be sent along
+            keys = cls.GRAPH_NODE_KEYS if 'full_name' in n['props'] else cls.MODEL_NODE_KEYS
+            return [n['labels'], sorted((k, str(v)) for k, v in n['props'].items() if k in keys)]
         nodes = sorted(canon(cn(n)) for n in d['nodes'])
         rels = sorted(canon([cn(d['nodes'][r['start']]), r['type'], cn(d['nodes'][r['end']])])
                       for r in d['rels'])
@@ -1911,7 +1934,7 @@ class ModelWorld(BaseWorld):
         td = call(o.value._to_dict)
         if td.raised:
             self.fail('C19.import', f'{where}: _to_dict() of the imported model raised {td.exc!r}')
-        v = self._c18_view(td.value)
+        v = self._c18_view(td.value, self.L)
         got = {'assets': {k: {'name': a['name'], 'type': a['type']} for k, a in v['assets'].items()},
                'links': v['links']}
         if got != want:
